@@ -12,4 +12,5 @@ WORLDS = {
     "gmx2(strong,large)": lambda: catalog.gmx2_world(kind="strong", impact="large"),
     "squeeth(eq)": lambda: catalog.squeeth_world("eq"),
     "squeeth(ne)": lambda: catalog.squeeth_world("ne"),
+    "squeeth(eq,no-osqth-entry)": lambda: catalog.squeeth_world("eq", with_osqth=False),
 }
